@@ -12,6 +12,9 @@ FRAGMENTS = [
     "<!DOCTYPE indi>", "<!DOCTYPE x [<!ENTITY e 'v'>]>", "\x00", "\x00\x00", "\r\n", "\n", "\t", " ",
     "=", "/>", "</", "<a", "a=", "text", "0123456789", "\xff\xfe", "\xe9", "<\xe9>", "defText", "Vector", "one", "</>",
     "<<", ">>", "<>", "< >", "<1>", "<-", "<a b>", "<a b=>", "<a b='>", "<a b=\">",
+    # well-formed elements of the INDI vocabulary that are no messages of this library's receive vocabulary
+    "<message device='d' message='hi'/>", "<message device=\"d\">text</message>", "<message/>", "<oneText name='x'>v</oneText>",
+    "<defVector device='d' name='n'/>", "<indiMessage/>", "<vector/>",
 ]
 
 IMITATING = [
